@@ -89,19 +89,19 @@ def run_c16(ctx):
 
 
 def run_c17(ctx):
-    ctx.rule = ("Design: TreapRng.tla model-checked for 3 threads x 3 draws: PerThread and SharedAtomic satisfy RaceFree, the Racy design "
+    ctx.rule = ("Design: TreapRng.tla model-checked for 3 threads x 3 draws (thorough: x 5 draws, 2.4M states): PerThread and SharedAtomic satisfy RaceFree, the Racy design "
                 "(read and write of the generator state as separate steps = unsynchronised static mut) must be rejected by TLC. Real code: "
                 "rounds of K threads released by a barrier, each creating nodes through the safe constructors and operating on its own "
                 "treap; per-thread priority streams and treap observables recorded; the reference stream comes from the same code on one "
                 "thread in a fresh process. TreapRaceTrace accepts iff results equal the solo results and the streams are explained by "
-                "PerThread (prefix of the reference) or SharedAtomic (partition of a reference prefix, walked value by value). "
+                "PerThread (prefix of one of the reference streams: stream i is what the (i+1)-th thread to create a node observes alone) or SharedAtomic (partition of a reference prefix, walked value by value). "
                 "Non-trivial = a thread stream of >= 1000 draws. Schedules are sampled by stress, not enumerated: the check can miss a "
                 "race, it cannot invent one.")
     dev = ctx.build()
     rel = ctx.build(release=True)
     # design level
     for design, must_hold in (("PerThread", True), ("SharedAtomic", True), ("Racy", False)):
-        cfg = ctx.cfg("treap", "TreapRng.cfg", {"Design": '"%s"' % design}, name="TreapRng_%s.cfg" % design)
+        cfg = ctx.cfg("treap", "TreapRng.cfg", {"Design": '"%s"' % design, "Draws": ctx.q("3", "5")}, name="TreapRng_%s.cfg" % design)
         if must_hold:
             ctx.mc("treap", "TreapRng", cfg, stage="mc-" + design, workers=4, timeout=600)
         else:
@@ -113,11 +113,14 @@ def run_c17(ctx):
     # real threads
     rounds = ctx.q([(rel, 8, 4000), (dev, 8, 3000), (rel, 16, 2000), (rel, 2, 8000)],
                    [(rel, 8, 20000), (dev, 8, 10000), (rel, 16, 10000), (rel, 2, 40000), (rel, 12, 15000), (dev, 16, 5000), (rel, 4, 30000), (rel, 16, 15000)])
+    if ctx.thorough:
+        # the same eight configurations five times over with other seeds: schedules are sampled, more samples = more schedules
+        rounds = rounds * 5
     nontrivial = 0
     for i, (binary, threads, draws) in enumerate(rounds):
         solo = ctx.path("solo-%d.ndjson" % i)
         race = ctx.path("race-%d.ndjson" % i)
-        ctx.drv(binary, ["treap", "record-solo", "--n", str(threads * draws), "--out", solo])
+        ctx.drv(binary, ["treap", "record-solo", "--n", str(threads * draws), "--streams", str(threads), "--per", str(draws), "--out", solo])
         info = ctx.drv(binary, ["treap", "record-race", "--seed", str(ctx.seed + i), "--threads", str(threads), "--draws", str(draws), "--out", race])
         trace = ctx.path("trace-race-%d.ndjson" % i)
         with open(trace, "w") as out:
